@@ -169,3 +169,145 @@ Example C08_bloch_nonvacuous :
   rpow gz g1 gmul (0, 1) (Z.to_nat 4) = g1 /\ rpow gz g1 gmul (-1, 0) (Z.to_nat 2) = g1 /\
   hk_entry gz g0 g1 gadd gmul (uc_edges hc_cell) (uc_crossing hc_cell) t tb (0, 1) (0, -1) (-1, 0) (-1, 0) 1 2 = (-1, 1).
 Proof. split; [exact gz_ring|]. vm_compute. repeat split; reflexivity. Qed.
+
+(* ====================================================================================================
+   bloch_complete — the step from the intertwining relation to EQUALITY OF SPECTRA (main clause:
+   "the union over the nx x ny allowed momenta of the eigenvalues of the Bloch Hamiltonian equals the
+   spectrum of the real-space Hamiltonian of the nx x ny periodic tiling"), machine-checked in MathComp.
+
+   Setting: ANY field F (MathComp fieldType) that contains a primitive nx-th root of unity zx and a
+   primitive ny-th root zy, and in which nx*ny is invertible (char F does not divide nx*ny; automatic in
+   characteristic 0, e.g. F = algC, zx = e^{2 pi i/nx}).  The allowed momentum k = 2 pi (kx/nx, ky/ny)
+   is the pair of phases (zx^kx, zy^ky).  The matrices are TABULATED from the executable entry functions
+   of Model/Bloch.v at the ring (F, 0, 1, +, * ) — C08_bloch_matrices states their entries:
+     tiled_mx c nx ny t tb          'M[F]_(nx*ny*ns)  = ham_entry of tile_unit_cell(c, nx, ny), weights repeated
+     hk_mx c t tb wx wy             'M[F]_ns          = hk_entry at phases (wx, wx^-1, wy, wy^-1)
+     bloch_mx c nx ny zx zy         all nx*ny Bloch-wave blocks Phi_k of C08_bloch_intertwines side by side
+     bloch_mx' c nx ny zx zy        the conjugate phases, transposed
+     hk_diag_mx c nx ny t tb zx zy  the direct sum of the H(k) over the grid.
+   NOT covered: that the float eigvalsh/exp of the implementation compute these spectra (checked by S). *)
+From mathcomp Require Import all_ssreflect all_algebra all_field.
+From Koala Require Import Proofs.BlochCompleteAlg Proofs.BlochComplete.
+Import GRing.Theory Num.Theory.
+Close Scope Z_scope.
+Local Open Scope ring_scope.
+
+(* the entries of the tabulated matrices, in terms of Model/Bloch.v *)
+Theorem C08_bloch_matrices :
+  forall (F : fieldType) (c : unit_cell) (nx ny : nat) (t tb : list F) (zx zy wx wy : F),
+  let ns := n_sites_nat c in
+  n_sites c = Z.of_nat ns /\
+  (forall i j : 'I_(nx * ny * ns),
+     tiled_mx c nx ny t tb i j
+     = ham_entry F 0 +%R (tile_edges c (Z.of_nat nx) (Z.of_nat ny))
+         (tile_weights F t (Z.of_nat nx) (Z.of_nat ny)) (tile_weights F tb (Z.of_nat nx) (Z.of_nat ny))
+         (Z.of_nat i) (Z.of_nat j)) /\
+  (forall a b : 'I_ns,
+     hk_mx c t tb wx wy a b
+     = hk_entry F 0 1 +%R *%R (uc_edges c) (uc_crossing c) t tb wx wx^-1 wy wy^-1 (Z.of_nat a) (Z.of_nat b)) /\
+  ((0 < nx)%N -> forall r j : 'I_(nx * ny * ns),
+     bloch_mx c nx ny zx zy r j
+     = (if (r %% ns == j %% ns)%N
+        then ((zx ^+ ((j %/ ns) %% nx))^-1) ^+ ((r %/ ns) %% nx) * ((zy ^+ ((j %/ ns) %/ nx))^-1) ^+ ((r %/ ns) %/ nx)
+        else 0) /\
+     bloch_mx' c nx ny zx zy j r
+     = (if (r %% ns == j %% ns)%N
+        then (zx ^+ ((j %/ ns) %% nx)) ^+ ((r %/ ns) %% nx) * (zy ^+ ((j %/ ns) %/ nx)) ^+ ((r %/ ns) %/ nx)
+        else 0)) /\
+  (forall i j : 'I_(nx * ny * ns),
+     hk_diag_mx c nx ny t tb zx zy i j
+     = (if (i %/ ns == j %/ ns)%N
+        then hk_mx c t tb (zx ^+ ((i %/ ns) %% nx)) (zy ^+ ((i %/ ns) %/ nx))
+                   (Ordinal (ltn_pmod i (ord_ns_gt0 i))) (Ordinal (ltn_pmod j (ord_ns_gt0 i)))
+        else 0)).
+Proof. exact bloch_matrices_entries. Qed.
+Print Assumptions C08_bloch_matrices.
+
+(* Discrete Fourier orthogonality: for a primitive n-th root of unity z in a field and a, b < n,
+   sum_{k<n} (z^k)^{-a} (z^k)^{b} = n * delta_{ab}  (DFT matrix times its conjugate = n * 1). *)
+Theorem C08_fourier_orthogonality :
+  forall (F : fieldType) (n : nat) (z : F) (a b : nat),
+  n.-primitive_root z -> (a < n)%N -> (b < n)%N ->
+  \sum_(k < n) ((z ^+ k)^-1) ^+ a * (z ^+ k) ^+ b = if a == b then n%:R else 0.
+Proof. exact fourier_orthogonality. Qed.
+Print Assumptions C08_fourier_orthogonality.
+
+(* Explicit invertibility of the full Bloch-wave matrix and the similarity (for EVERY unit cell — no
+   well-formedness needed for Phi . Phi' = (nx*ny) . 1):
+     Phi . Phi' = (nx*ny) . 1 ;   and for well-formed cells, if nx*ny is invertible in F,
+     Phi is a unit and   A_tiled = Phi . (direct sum over the grid of H(k)) . ((nx*ny)^-1 Phi'). *)
+Theorem C08_bloch_invertible :
+  forall (F : fieldType) (nx ny : nat) (zx zy : F),
+  nx.-primitive_root zx -> ny.-primitive_root zy ->
+  forall c : unit_cell,
+  bloch_mx c nx ny zx zy *m bloch_mx' c nx ny zx zy = ((nx * ny)%:R)%:M.
+Proof. exact bloch_mx_orthogonal. Qed.
+Print Assumptions C08_bloch_invertible.
+
+Theorem C08_bloch_similar :
+  forall (F : fieldType) (nx ny : nat) (zx zy : F),
+  nx.-primitive_root zx -> ny.-primitive_root zy ->
+  forall (c : unit_cell) (t tb : list F),
+  wf_cell c = true -> zlen t = n_uedges c -> zlen tb = n_uedges c ->
+  (nx * ny)%:R != 0 :> F ->
+  bloch_mx c nx ny zx zy \in unitmx /\
+  bloch_mx c nx ny zx zy *m (((nx * ny)%:R)^-1 *: bloch_mx' c nx ny zx zy) = 1%:M /\
+  tiled_mx c nx ny t tb *m bloch_mx c nx ny zx zy
+    = bloch_mx c nx ny zx zy *m hk_diag_mx c nx ny t tb zx zy /\
+  tiled_mx c nx ny t tb
+    = bloch_mx c nx ny zx zy *m hk_diag_mx c nx ny t tb zx zy *m (((nx * ny)%:R)^-1 *: bloch_mx' c nx ny zx zy).
+Proof.
+move=> F nx ny zx zy Hzx Hzy c t tb Hwf Ht Htb HN; split; first exact: bloch_mx_unit.
+split; first exact: bloch_mx_inverse.
+split; [exact: bloch_mx_intertwines | exact: tiled_similar].
+Qed.
+Print Assumptions C08_bloch_similar.
+
+(* MAIN CLAUSE, with multiplicities: the characteristic polynomial of the real-space Hamiltonian of the
+   nx x ny tiling is the product over the nx*ny allowed momenta of the characteristic polynomials of
+   the Bloch Hamiltonians — i.e. the spectrum of the tiling is the multiset union of the Bloch spectra. *)
+Theorem C08_bloch_complete :
+  forall (F : fieldType) (nx ny : nat) (zx zy : F),
+  nx.-primitive_root zx -> ny.-primitive_root zy ->
+  forall (c : unit_cell) (t tb : list F),
+  wf_cell c = true -> zlen t = n_uedges c -> zlen tb = n_uedges c ->
+  (nx * ny)%:R != 0 :> F ->
+  char_poly (tiled_mx c nx ny t tb)
+  = \prod_(kx < nx) \prod_(ky < ny) char_poly (hk_mx c t tb (zx ^+ kx) (zy ^+ ky)).
+Proof. exact bloch_complete_grid. Qed.
+Print Assumptions C08_bloch_complete.
+
+(* MAIN CLAUSE, as sets: lam is an eigenvalue of the tiled Hamiltonian iff it is an eigenvalue of the
+   Bloch Hamiltonian at some allowed momentum. *)
+Theorem C08_bloch_spectrum_union :
+  forall (F : fieldType) (nx ny : nat) (zx zy : F),
+  nx.-primitive_root zx -> ny.-primitive_root zy ->
+  forall (c : unit_cell) (t tb : list F),
+  wf_cell c = true -> zlen t = n_uedges c -> zlen tb = n_uedges c ->
+  (nx * ny)%:R != 0 :> F ->
+  forall lam : F,
+  eigenvalue (tiled_mx c nx ny t tb) lam
+  = [exists kx : 'I_nx, exists ky : 'I_ny, eigenvalue (hk_mx c t tb (zx ^+ kx) (zy ^+ ky)) lam].
+Proof. exact bloch_complete_eigenvalue. Qed.
+Print Assumptions C08_bloch_spectrum_union.
+
+(* Non-vacuity: the hypotheses hold over F = algC (the algebraic numbers) for the 4-site honeycomb cell
+   with PARALLEL edges, nx = 4 with zx = i, ny = 2 with zy = -1, hoppings t_e = i, tb_e = -i; the
+   conclusion of C08_bloch_complete is then the 32 x 32 statement below. *)
+Example C08_bloch_complete_nonvacuous :
+  let t : list algC := nseq 6 'i in let tb : list algC := nseq 6 (- 'i) in
+  4.-primitive_root ('i : algC) /\ 2.-primitive_root (-1 : algC) /\ (4 * 2)%:R != 0 :> algC /\
+  wf_cell hc_cell = true /\ zlen t = n_uedges hc_cell /\ zlen tb = n_uedges hc_cell /\
+  n_sites_nat hc_cell = 4%N /\
+  char_poly (tiled_mx hc_cell 4 2 t tb)
+  = \prod_(kx < 4) \prod_(ky < 2) char_poly (hk_mx hc_cell t tb ('i ^+ kx) ((-1) ^+ ky)).
+Proof.
+move=> t tb.
+have h1 : wf_cell hc_cell = true by vm_compute.
+have [ht htb] : zlen t = n_uedges hc_cell /\ zlen tb = n_uedges hc_cell.
+  by rewrite /t /tb; move: ('i : algC) (- 'i : algC) => x y; vm_compute.
+have h3 : (4 * 2)%:R != 0 :> algC by rewrite pnatr_eq0.
+do ![split=> //]; [exact: prim_root_i | exact: prim_root_neg1 |].
+exact: (@C08_bloch_complete [fieldType of algC] 4 2 'i (-1) (prim_root_i _) (prim_root_neg1 _)).
+Qed.
+Print Assumptions C08_bloch_complete_nonvacuous.
